@@ -7,6 +7,7 @@ import (
 	"io"
 	"os"
 	"path/filepath"
+	"strconv"
 	"strings"
 	"sync"
 	"sync/atomic"
@@ -135,18 +136,42 @@ func gunzip(b []byte) ([]byte, error) {
 	return out, nil
 }
 
-func offeredGzip(ae string) bool {
+// offered reports whether the Accept-Encoding value ae makes the coding
+// acceptable (RFC 9110 12.5.3): listed with a non-zero weight, or covered by
+// a "*" with a non-zero weight while not listed itself.
+func offered(ae, coding string) bool {
 	if ae == "-" {
 		return false
 	}
+	star, listed, ok := false, false, false
 	for _, p := range strings.Split(ae, ",") {
-		name := strings.TrimSpace(strings.SplitN(p, ";", 2)[0])
-		if strings.EqualFold(name, "gzip") || name == "*" {
-			return true
+		parts := strings.Split(p, ";")
+		name := strings.TrimSpace(parts[0])
+		q := 1.0
+		for _, prm := range parts[1:] {
+			prm = strings.TrimSpace(prm)
+			if len(prm) > 2 && (prm[0] == 'q' || prm[0] == 'Q') && prm[1] == '=' {
+				if v, err := strconv.ParseFloat(prm[2:], 64); err == nil {
+					q = v
+				}
+			}
+		}
+		switch {
+		case strings.EqualFold(name, coding) || (coding == "gzip" && strings.EqualFold(name, "x-gzip")):
+			listed = true
+			if q > 0 {
+				ok = true
+			}
+		case name == "*":
+			if q > 0 {
+				star = true
+			}
 		}
 	}
-	return false
+	return ok || (star && !listed)
 }
+
+func offeredGzip(ae string) bool { return offered(ae, "gzip") }
 
 func runCase(c *Case) (nontrivial int, err error) {
 	inst, e := srv.Start(casketfile(c), "")
@@ -258,13 +283,7 @@ func absolute(r Req, p *srv.Resp) error {
 	ce := p.Header.Get("Content-Encoding")
 	file := filepath.Join(fixture(), filepath.FromSlash(name))
 	if ce != "" {
-		offered := false
-		for _, a := range strings.Split(r.AE, ",") {
-			if strings.TrimSpace(a) == ce {
-				offered = true
-			}
-		}
-		if !offered || r.AE == "-" {
+		if !offered(r.AE, ce) {
 			return fmt.Errorf("static file served with Content-Encoding %q which the client (Accept-Encoding %q) did not offer", ce, r.AE)
 		}
 		ext := map[string]string{"gzip": ".gz", "br": ".br", "zstd": ".zst"}[ce]
@@ -413,7 +432,8 @@ func abs(x int) int {
 // ---------------------------------------------------------------------------
 // generators
 
-var aeVals = []string{"-", "gzip", "gzip, br", "zstd, gzip", "br", "identity", "gzip, deflate, br, zstd", "zstd", "br, gzip", "deflate", "GZIP", "zstd,gzip"}
+var aeVals = []string{"-", "gzip", "gzip, br", "zstd, gzip", "br", "identity", "gzip, deflate, br, zstd", "zstd", "br, gzip", "deflate", "GZIP", "zstd,gzip",
+	"gzip;q=0", "gzip;q=0.5, br", "*;q=0", "identity;q=1, *;q=0", "br;q=1.0, gzip;q=0.0", "*", "x-gzip", "deflate, gzip;q=0", "gzip;q=0.000", "gzip;q=1", "zstd;q=0, gzip", "br;q=0, zstd;q=0.8", "gzip;q=0, *", "ungzipped"}
 
 func genGzip(t *rapid.T, lb string) GzipCfg {
 	g := GzipCfg{}
